@@ -49,9 +49,8 @@ def run(chk):
     # 3. impl -> spec: recorded random queries under random delays
     n = 300 if quick else 3000
     trace = chk.workdir / "queries.ndjson"
-    p = vlib.sh([str(vlib.VH), "record", "conc", "--n", str(n), "--seed", str(chk.seed), "--delay-us", "400", "--out", str(trace)], timeout=1200)
-    if p.returncode != 0:
-        vlib.tool_error("vh record conc failed: " + (p.stdout or "")[-1000:])
+    if not vlib.run_recorder(chk, [vlib.VH, "record", "conc", "--n", n, "--seed", chk.seed, "--delay-us", "400", "--out", trace], "conc:record"):
+        chk.finish(RULE, exhaustive=False)
     lines = [json.loads(l) for l in open(trace)]
     nt = sum(1 for e in lines if len(e["sc"]["cands"]) >= 2 or e["err"])
     ok, r, rej = vlib.validate_trace(S / "StoreConcTrace.tla", S / "trace.cfg", trace, "trace", chk.workdir)
